@@ -477,6 +477,69 @@ def comps_to_loops(stmts):
     return out
 
 
+def fuse_lists(stmts):
+    """L = [e0, ..]; (L.append(e) | if g: L.append(e).. )*; ...; for v in L: BODY   ->   at the place of the loop, the script that
+    built L with every element replaced by BODY[v := element].  Only when L is used for nothing else, its elements are plain
+    reads, the guards are plain names or reads, and nothing between the construction and the loop stores what they read."""
+    stmts = list(stmts)
+    for i, s in enumerate(stmts):
+        if not (isinstance(s, ast.Assign) and len(s.targets) == 1 and isinstance(s.targets[0], ast.Name) and isinstance(s.value, ast.List)
+                and all(_simple(e) for e in s.value.elts)):
+            continue
+        L = s.targets[0].id
+
+        def is_app(x):
+            return isinstance(x, ast.Expr) and isinstance(x.value, ast.Call) and isinstance(x.value.func, ast.Attribute) \
+                and x.value.func.attr == "append" and isinstance(x.value.func.value, ast.Name) and x.value.func.value.id == L \
+                and len(x.value.args) == 1 and _simple(x.value.args[0])
+
+        def is_guarded_apps(x):
+            return isinstance(x, ast.If) and not x.orelse and _simple(x.test) and x.body and all(is_app(y) for y in x.body)
+        script = [("items", list(s.value.elts))]
+        j = i + 1
+        while j < len(stmts) and (is_app(stmts[j]) or is_guarded_apps(stmts[j])):
+            x = stmts[j]
+            if is_app(x):
+                script.append(("items", [x.value.args[0]]))
+            else:
+                script.append(("if", x.test, [y.value.args[0] for y in x.body]))
+            j += 1
+        loops = [k for k in range(j, len(stmts)) if isinstance(stmts[k], ast.For) and isinstance(stmts[k].iter, ast.Name) and stmts[k].iter.id == L
+                 and isinstance(stmts[k].target, ast.Name) and not stmts[k].orelse]
+        mentions_ = sum(1 for st_ in stmts for x in ast.walk(st_) if isinstance(x, ast.Name) and x.id == L)
+        expected = 1 + sum(len(sc[1]) if sc[0] == "items" and sc is not script[0] else (len(sc[2]) if sc[0] == "if" else 0) for sc in script) + 1
+        if len(loops) != 1 or mentions_ != expected:
+            continue
+        k = loops[0]
+        loop = stmts[k]
+        if any(isinstance(x, (ast.Break, ast.Continue, ast.Return)) for b in loop.body for x in ast.walk(b)):
+            continue
+        read_names = {x.id for sc in script for e in (sc[1] if sc[0] == "items" else [sc[1]] + sc[2]) for x in ast.walk(e) if isinstance(x, ast.Name)} - {"self"}
+        read_attrs = {x.attr for sc in script for e in (sc[1] if sc[0] == "items" else [sc[1]] + sc[2]) for x in ast.walk(e) if isinstance(x, ast.Attribute)}
+        between = stmts[j:k] + list(loop.body)
+        stored_attrs = {x.attr for b in between for x in ast.walk(b) if isinstance(x, ast.Attribute) and isinstance(x.ctx, ast.Store)}
+        if (read_names & _assigned_names(between)) or (read_attrs & stored_attrs) or loop.target.id in _assigned_names(loop.body):
+            continue
+
+        def inst(e):
+            return [_Subst({loop.target.id: e}, {}).visit(copy.deepcopy(b)) for b in loop.body]
+        out = []
+        for sc in script:
+            if sc[0] == "items":
+                for e in sc[1]:
+                    out.extend(inst(e))
+            else:
+                body = []
+                for e in sc[2]:
+                    body.extend(inst(e))
+                out.append(ast.copy_location(ast.If(test=copy.deepcopy(sc[1]), body=body, orelse=[]), loop))
+        for x in out:
+            ast.copy_location(x, loop)
+            ast.fix_missing_locations(x)
+        return fuse_lists(stmts[:i] + stmts[j:k] + out + stmts[k + 1:])
+    return stmts
+
+
 def unroll_displays(stmts):
     """`for x, y in ((a, b), (c, d)): B`  ->  B[x:=a, y:=b]; B[x:=c, y:=d]  when the display is written out in the loop header, its
     elements are plain reads (names, attributes, constants), and B neither rebinds the loop variables, nor stores what the
@@ -517,7 +580,7 @@ def inlined_body(prog, cls, fn):
     """(statements of fn with helper calls inlined, list of helpers inlined)."""
     inl = Inliner(prog, cls.module if cls is not None else fn.module, cls)
     inl.owner_stack.append(fn.cls)
-    body = inl.body(comps_to_loops(unroll_displays(list(fn.node.body))))
+    body = inl.body(comps_to_loops(unroll_displays(fuse_lists(list(fn.node.body)))))
     if fn.name == "decode":
         body = normalize(body)
     for s in body:
